@@ -55,6 +55,7 @@ void DataNode :: Reset()
    _parent             = NULL;
    _depth              = 0;
    _maxChildIDHint     = 0;
+   _orderedCounter     = 0;  // so that a recycled node generates the same child-names (I0, I1, ...) that a newly constructed node would
    _data.Reset();
    _cachedDataChecksum = INVALID_CACHED_CHECKSUM;
 }
